@@ -271,6 +271,10 @@ Section Proto.
   Definition grows {A} (f : fstate A) (n : nat) : bool :=
     match f with Writing _ m => Nat.leb m n | _ => false end.
 
+  (* first statements of the handler: result.errored = True; run_async also sets Job._errored *)
+  Definition mark_failed (q : proc) : proc :=
+    set_rerr true (set_view (view q) (if is_async q then true else self_err q) q).
+
   (* an exception raised at the checkpoint of pc c: where control goes *)
   Definition exc_target (p : pid) (q : proc) (g : glob) : proc * glob :=
     let g1 := if holds_s (pc q) then set_slock (unlock p (slock g)) g else g in
@@ -284,7 +288,7 @@ Section Proto.
     match region_at (pc q) with
     | ROut => (set_pc RelExc q, g2)
     | RPre => (set_dirty (set_pc ExcHold q), g2)
-    | RTry => (set_rerr true (set_pc Err0 q), g2)
+    | RTry => (mark_failed (set_pc Err0 q), g2)
     | RHandler => (set_raised true (set_pc Fin0 q), g2)
     | RFinally => (set_dirty (set_pc ExcHold q), g2)
     end.
@@ -341,7 +345,7 @@ Section Proto.
     (* ---- try: audit.monitor(); task._run; outputs *)
     | AudSt, ABodyEnter => Some (inc_execs (set_pc BodyIn q), g)
     | BodyIn, ABodyLeft => Some (set_pc BodyOut q, inc_runs g)
-    | BodyIn, ABodyRaise => Some (set_rerr true (set_pc Err0 q), inc_runs g)
+    | BodyIn, ABodyRaise => Some (mark_failed (set_pc Err0 q), inc_runs g)
     | BodyOut, AOutputs => Some (set_rout (Some bv) (set_pc OutsOk q), g)
     (* ---- except Exception: result.errored = True (first statement of the handler); record_error(...); raise *)
     | Err0, AErrBefore => go Err1 q g
@@ -367,6 +371,13 @@ Section Proto.
     | RelHit, AReturned | Post2, AReturned =>
         Some (set_ret (Some (match job_result q g with Some r => Returned r | None => NoResult end)) (set_pc Done q), g)
     | RelExc, ARaisedOut => Some (set_ret (Some Raised) (set_pc Done q), g)
+    (* raise_errors=False (every worker but debug): "if raise_errors or not job.result(): raise", else the stored
+       (errored) result is handed back *)
+    | RelExc, AReturned =>
+        match job_result q g with
+        | Some r => Some (set_ret (Some (Returned r)) (set_pc Done q), g)
+        | None => None
+        end
     (* ---- environment: user code moves the process: inside the body, inside hooks.post_run_task *)
     | BodyIn, AChdir | Fin1, AChdir => Some (set_cwd Elsewhere q, g)
     (* ---- environment: bytes reach the disk while a file is open *)
